@@ -204,11 +204,15 @@ pub fn base_set(n: &Named) -> Arc<BitSet> {
         return s.clone();
     }
     let pat = named_alone_pattern(n);
-    let set = match measure_pattern(&pat) {
-        Ok(s) => s,
-        Err(e) => {
+    let set = match crate::run::guard(|| measure_pattern(&pat)) {
+        Ok(Ok(s)) => s,
+        Ok(Err(e)) => {
             crate::run::harness_error(&format!("cannot measure base set of {:?}: {}", pat, e))
         }
+        Err(p) => crate::run::harness_error(&format!(
+            "cannot measure base set of {:?}: scanning the string of all scalar values panicked: {} (C07 and C08 scan that string as a fixed case and report this as a violation)",
+            pat, p
+        )),
     };
     let set = Arc::new(set);
     cache.lock().unwrap().insert(n.clone(), set.clone());
